@@ -778,6 +778,19 @@ def builder_block_units():
     return [FunctionUnit(IfContract(1)), FunctionUnit(IfContract(3)), FunctionUnit(ElseContract())]
 
 
+BUILDER_FIELDS = {"statements", "_writer_map", "_reader_map", "_conditional_expression_stack",
+                  "_last_if_block_conditional_expression", "_seen_var_names"}
+
+
+def with_block_units():
+    """`with builder:` itself writes nothing: entering and leaving the block (normally or through an exception) neither
+    mutates nor rebinds the builder's bookkeeping from which ids, guards and dependencies are derived (frame conditions,
+    pyvc.frame).  Other attributes of the builder are not protected."""
+    from pyvc.contracts import FrameUnit
+    return [FrameUnit(REL, "CodeBuilder." + m, set(), "the-builder's-bookkeeping(statements,-writer/reader-maps,-guard-stack,-seen-names)",
+                      field_roots=BUILDER_FIELDS) for m in ("__enter__", "__exit__")]
+
+
 def units():
     # theorem T orders statements that conflict on their DECLARED sets; that the declared sets cover what a
     # statement touches is C08: its functions under contract are functions this property depends on
@@ -787,7 +800,7 @@ def units():
             LemmaUnit("lemma:C02-inv", lemma_c02_inv),
             LeanUnit("lemma:L-PERM", "lemmas/LPerm.lean", ["run_eq_of_linear_extensions"]),
             LeanUnit("lemma:L-TOPO", "lemmas/LTopo.lean", ["pairwise_of_respects"])] \
-        + __import__("contracts.c02assign", fromlist=["units"]).units()
+        + __import__("contracts.c02assign", fromlist=["units"]).units() + with_block_units()
 
 
 LEVEL = "proof"
